@@ -481,7 +481,11 @@ def acpc_pair(tid, spec, rng, pol):
     try:
         with warnings.catch_warnings():
             warnings.simplefilter('ignore')
-            hh = HandHistory.from_game_state(game, stA, hand=tid)
+            # the hand carries its own number (ACPC logs count from 0) and the writers are asked with and without naming it
+            num = rng.choice([0, 0, 1, tid, tid + 1000])
+            named = rng.random() < 0.5
+            hn = (num,) if named else ()
+            hh = HandHistory.from_game_state(game, stA, hand=num)
             hh_view = hh
             terminal = not stA.status
             if bet_idx and (not terminal or rng.random() < 0.4):
@@ -492,19 +496,19 @@ def acpc_pair(tid, spec, rng, pol):
             elif not terminal:
                 return None
             for seat in range(n):
-                msgs = [tokenise_acpc(d, t) for d, t in hh_view.to_acpc_protocol(seat, tid)]
+                msgs = [tokenise_acpc(d, t) for d, t in hh_view.to_acpc_protocol(seat, *hn)]
                 for mm in msgs:
-                    if mm['pos'] != seat or mm['hand'] != tid:
+                    if mm['pos'] != seat or mm['hand'] != num:
                         flags.append(['position and hand number are echoed in every message', False])
                     del mm['pos'], mm['hand']
                 views.append({'seat': seat + 1, 'msgs': msgs})
             if nolimit and terminal:
-                line = hh.to_pluribus_protocol(tid)
+                line = hh.to_pluribus_protocol(*hn)
                 p = line.split(':')
                 holes, boards = _cardfield(p[3])
                 plur = {'present': True, 'acts': _acts(p[2]), 'holes': holes, 'boards': boards,
                         'payoffs': [int(x) for x in p[4].split('|')]}
-                flags.append(['the Pluribus line names the hand and the players', p[0] == 'STATE' and int(p[1]) == tid and
+                flags.append(['the Pluribus line names the hand and the players', p[0] == 'STATE' and int(p[1]) == num and
                               p[5].split('|') == [f'p{i + 1}' for i in range(n)]])
                 if len(set(spec['stacks'])) == 1 and not any(spec['antes']):
                     hs = list(HandHistory.from_acpc_protocol(game, spec['stacks'][0], line, error_status=True))
@@ -514,7 +518,7 @@ def acpc_pair(tid, spec, rng, pol):
                         pass
                     recB = raw_record(tid, stB, dict(spec, autos=[a.value for a in stB.automations]))
                     parsed = True
-                    flags.append(['the parsed-back hand produces the identical line', hs[0].to_pluribus_protocol(tid) == line])
+                    flags.append(['the parsed-back hand produces the identical line', hs[0].to_pluribus_protocol(*hn) == line])
         flags.append(['protocol output was produced without error', True])
     except Exception as e:  # noqa: BLE001
         flags.append([f'protocol output was produced without error ({type(e).__name__}: {str(e)[:100]})', False])
